@@ -11,16 +11,20 @@ trap 'git -C /repo worktree remove --force "$W" >/dev/null 2>&1; rm -rf "$W"' EX
 git -C /repo worktree add --detach "$W" HEAD >/dev/null 2>&1 || { echo "worktree failed"; exit 2; }
 DST=$ROOT/seeded/$NAME; mkdir -p "$DST"; cp -r "$SRC"/. "$DST"/
 rundemo() {
-  if ls "$SRC"/*_test.go >/dev/null 2>&1 && ! grep -q '^package seccomp' "$SRC"/*_test.go; then
-    mkdir -p "$W/zz_seeddemo"; cp "$SRC"/*_test.go "$W/zz_seeddemo/"
-    (cd "$W" && go test -count=1 ./zz_seeddemo/ >/tmp/seedchk.$$.log 2>&1); rc=$?
-    rm -rf "$W/zz_seeddemo"
-  elif ls "$SRC"/*_test.go >/dev/null 2>&1; then
-    for f in "$SRC"/*_test.go; do cp "$f" "$W/zz_seed_$(basename "$f")"; done
+  if ls "$SRC"/*_test.go >/dev/null 2>&1; then
+    pkg=$(grep -h '^package ' "$SRC"/*_test.go | head -1 | awk '{print $2}')
+    case "$pkg" in
+      seccomp|seccomp_test) sub=. ;;
+      arch|arch_test) sub=arch ;;
+      disasm|disasm_test) sub=cmd/seccomp-profiler/disasm ;;
+      unix|unix_test) sub=internal/unix ;;
+      *) sub=zz_seeddemo; mkdir -p "$W/zz_seeddemo" ;;
+    esac
+    for f in "$SRC"/*_test.go; do cp "$f" "$W/$sub/zz_seed_$(basename "$f")"; done
     names=$(grep -ho '^func Test[A-Za-z0-9_]*' "$SRC"/*_test.go | sed 's/^func //' | paste -sd'|')
     tags=""; grep -q "Verif" "$SRC"/*_test.go && tags="-tags verif"
-    (cd "$W" && go test $tags -count=1 -run "^($names)\$" . >/tmp/seedchk.$$.log 2>&1); rc=$?
-    rm -f "$W"/zz_seed_*_test.go
+    (cd "$W" && go test $tags -count=1 -run "^($names)\$" ./$sub >/tmp/seedchk.$$.log 2>&1); rc=$?
+    rm -f "$W/$sub"/zz_seed_*_test.go; [ "$sub" = zz_seeddemo ] && rm -rf "$W/zz_seeddemo"
   else
     d=$(ls -d "$SRC"/*/ | head -1); mkdir -p "$W/_seeddemo"; cp -r "$d"/. "$W/_seeddemo/"
     (cd "$W" && go run ./_seeddemo >/tmp/seedchk.$$.log 2>&1); rc=$?
